@@ -25,6 +25,9 @@ CLASSES = {
     "Event": (Event, ("summary", "SUMMARY", b"Summary"), ("x-b", "X-B")),
     "Component": (Component, ("uid", "UID", b"uId"), ("attendee", "Attendee")),
     "vRecur": (vRecur, ("freq", "FREQ", b"Freq"), ("count", "COUNT")),
+    # non-ASCII cased letters: bytes.upper() folds ASCII only, str.upper() expands sharp s to SS
+    "CaselessDict-nonascii": (CaselessDict, ("x-caf\u00e9", "X-CAF\u00c9", "x-caf\u00e9".encode("utf-8")), ("stra\u00dfe", "STRASSE")),
+    "Parameters-nonascii": (Parameters, ("x-\u00e9", "X-\u00c9", "X-\u00e9".encode("utf-8")), ("x-p", "X-P")),
 }
 VALUES = (1, 2)
 
